@@ -32,7 +32,13 @@ pub struct Cell { pub val: Option<Val>, pub ver: u64 }
 
 /// Resource checker kinds of the simulated resource families.
 #[derive(Clone, Copy, Debug, PartialEq, Eq, PartialOrd, Ord, Hash, Serialize, Deserialize)]
-pub enum RK { Exact, Parity, Exists, Version, Thresh(i64), Always }
+pub enum RK {
+  Exact, Parity, Exists, Version, Thresh(i64), Always,
+  /// Checkers whose stamp type is zero-sized (all the information is in the checker): `ZVol` is never consistent (the
+  /// task may observe the exact value), `ZMost(n)` is inconsistent exactly while the current value exceeds `n` (the
+  /// task observes nothing).
+  ZVol, ZMost(i64),
+}
 
 impl RK {
   /// What the checker compares.
@@ -44,12 +50,18 @@ impl RK {
       RK::Version => Some(c.ver as Val),
       RK::Thresh(k) => c.val.map(|v| (v >= *k) as Val),
       RK::Always => Some(0),
+      RK::ZVol | RK::ZMost(_) => None,
     }
   }
+  /// Zero-sized-stamp kinds.
+  pub fn is_zst(&self) -> bool { matches!(self, RK::ZVol | RK::ZMost(_)) }
+  /// Verdict of a zero-sized-stamp kind for the current cell.
+  pub fn zst_inconsistent(&self, c: Cell) -> bool { match self { RK::ZVol => true, RK::ZMost(n) => c.val.map(|v| v > *n).unwrap_or(false), _ => false } }
   /// What a task may observe of a value it accessed with this checker (must be determined by the stamp).
   pub fn observe(&self, v: Option<Val>) -> Val {
     match self {
-      RK::Exact | RK::Version => v.map(|v| v + 1).unwrap_or(0),
+      RK::Exact | RK::Version | RK::ZVol => v.map(|v| v + 1).unwrap_or(0),
+      RK::ZMost(_) => 0,
       RK::Parity => v.map(|v| v.rem_euclid(2) + 1).unwrap_or(0),
       RK::Exists => v.is_some() as Val,
       RK::Thresh(k) => v.map(|v| (v >= *k) as Val + 1).unwrap_or(0),
@@ -59,13 +71,14 @@ impl RK {
   pub fn is_exact(&self) -> bool { matches!(self, RK::Exact) }
   /// A stamp of `self` (the writer's checker) determines what a reader using `reader` may observe.
   pub fn determines_obs(&self, reader: &RK) -> bool {
-    if matches!(reader, RK::Always) { return true; }
+    if matches!(reader, RK::Always | RK::ZMost(_)) { return true; }
+    if matches!(reader, RK::ZVol) { return matches!(self, RK::Exact | RK::Version); }
     match self {
       RK::Exact | RK::Version => true,
       RK::Parity => matches!(reader, RK::Parity | RK::Exists),
       RK::Thresh(k) => *reader == RK::Thresh(*k) || matches!(reader, RK::Exists),
       RK::Exists => matches!(reader, RK::Exists),
-      RK::Always => false,
+      RK::Always | RK::ZVol | RK::ZMost(_) => false,
     }
   }
 }
@@ -371,6 +384,60 @@ impl<const F: u8> ResourceChecker<R<F>> for RChk {
     Ok(if incons { Some(now) } else { None })
   }
 
+  fn wrap_error(&self, error: SimErr) -> SimErr { error }
+}
+
+// ---------------------------------------------------------------------------------------------------------------------
+// Checker with a zero-sized stamp (simulated families only). The serial that identifies the dependency it belongs to
+// is carried by the checker itself (given by the interpreter when the access is made).
+
+#[derive(Clone, Copy, PartialEq, Eq, Hash)]
+pub struct ZChk { pub kind: RK, pub serial: u64 }
+impl Debug for ZChk {
+  fn fmt(&self, f: &mut fmt::Formatter<'_>) -> fmt::Result { write!(f, "ZChk({:?})#{}", self.kind, self.serial) }
+}
+#[derive(Clone, Copy, PartialEq, Eq, Hash, Debug)]
+pub struct ZStamp;
+
+pub fn new_serial_pub() -> u64 { new_serial() }
+
+impl<const F: u8> ResourceChecker<R<F>> for ZChk {
+  type Stamp = ZStamp;
+  type Error = SimErr;
+
+  fn stamp<RS: ResourceState<R<F>>>(&self, resource: &R<F>, state: &mut RS) -> Result<ZStamp, SimErr> {
+    tick();
+    let key = ResKey { fam: F, id: resource.0 };
+    let cell = state.get_or_set_default_mut::<SimWorld>().get(resource.0);
+    log(Ev::RStamp { serial: self.serial, owner: owner_for(Target::Res(key)), route: Route::Path, res: key, chk: self.kind, seen: cell, proj: None, reader: None });
+    Ok(ZStamp)
+  }
+  fn stamp_reader(&self, resource: &R<F>, reader: &mut SimReader) -> Result<ZStamp, SimErr> {
+    tick();
+    let key = ResKey { fam: F, id: resource.0 };
+    let fresh = reader.cursor == 0;
+    log(Ev::RStamp { serial: self.serial, owner: owner_for(Target::Res(key)), route: Route::Reader, res: key, chk: self.kind, seen: reader.cell, proj: None, reader: Some((reader.serial, fresh)) });
+    Ok(ZStamp)
+  }
+  fn stamp_writer(&self, resource: &R<F>, writer: SimWriter<'_>) -> Result<ZStamp, SimErr> {
+    tick();
+    let key = ResKey { fam: F, id: resource.0 };
+    let cell = writer.get();
+    log(Ev::RStamp { serial: self.serial, owner: owner_for(Target::Res(key)), route: Route::Writer, res: key, chk: self.kind, seen: cell, proj: None, reader: None });
+    Ok(ZStamp)
+  }
+  fn check<RS: ResourceState<R<F>>>(&self, resource: &R<F>, state: &mut RS, _stamp: &ZStamp) -> Result<Option<impl Debug>, SimErr> {
+    tick();
+    let key = ResKey { fam: F, id: resource.0 };
+    let cell = state.get_or_set_default_mut::<SimWorld>().get(resource.0);
+    if let Some(code) = injected_check_error(key, self.serial) {
+      log(Ev::RCheck { serial: self.serial, res: key, chk: self.kind, now: cell, verdict: Verdict::Error(code) });
+      return Err(SimErr(code));
+    }
+    let incons = self.kind.zst_inconsistent(cell);
+    log(Ev::RCheck { serial: self.serial, res: key, chk: self.kind, now: cell, verdict: if incons { Verdict::Inconsistent } else { Verdict::Consistent } });
+    Ok(if incons { Some(cell.val) } else { None })
+  }
   fn wrap_error(&self, error: SimErr) -> SimErr { error }
 }
 
